@@ -139,6 +139,44 @@ def _inline_fail_rules(facts, R, module, lb, ls, fails, stops):
                 "the notification subscriber is not told that the socket died (its recv() parks forever)", lb.span, "take_notify_sender on all exits", path=w)
 
 
+def _frame_owned(facts, b, module):
+    """Every local whose type can hold a PendingRequestGuard moves only into another local of this body, into a collection local, or into
+    mem::drop: ownership never leaves the coroutine frame, so each guard is dropped on every exit (return, error, cancellation)."""
+    G = module + "::PendingRequestGuard"
+    carriers = {G}
+    changed = True
+    while changed:
+        changed = False
+        for p_, a_ in facts.adts.items():
+            if p_ in carriers or not p_.startswith(module + "::"):
+                continue
+            if any(any(c_ in (f_.get("ty") or "") for c_ in carriers) for v_ in a_.get("variants", []) for f_ in v_["fields"]):
+                carriers.add(p_)
+                changed = True
+    def carries(ty):
+        return any(c_ in ty for c_ in carriers)
+    ALLOWED = ("push", "push_back", "extend", "into_iter", "next", "drop", "insert", "replace", "take", "map", "and_then", "collect", "branch", "from_residual", "unwrap", "expect")
+    for i, bl in enumerate(b.blocks):
+        t = bl["term"]
+        if t["k"] != "call":
+            continue
+        if t.get("inlined_future"):
+            continue
+        for o in t["args"]:
+            pl = o.get("move")
+            if pl is None or not carries(b.local_ty(pl["l"])) or pl["p"] and not carries(str(pl)):
+                continue
+            if b.local_ty(pl["l"]).startswith(("&", "*")) and not pl["p"]:
+                continue        # (a borrow of a carrier: ownership stays where it was)
+            nm = t["callee"]["name"]
+            std_ = t["callee"]["path"].startswith(("std::", "core::", "alloc::", "<std::", "<core::", "<alloc::"))
+            if nm in ("forget", "leak", "into_raw", "spawn", "send", "try_send") or "ManuallyDrop" in t["callee"]["path"]:
+                return False, "%s moves a guard-carrying value into %s" % (b.path, t["callee"]["path"])
+            if not (std_ and nm in ALLOWED):
+                return False, "%s hands a guard-carrying value to %s" % (b.path, t["callee"]["path"])
+    return True, None
+
+
 def run(facts, R):
     # a timed-out / cancelled call's late response is discarded *by the pending lookup missing*, nothing else: a filter in front
     # of the lookup also discards the answers of live calls (C04's rule, shared)
@@ -356,17 +394,27 @@ def run(facts, R):
                             moves[o["move"]["l"]].append((t.get("span"), None))
             holders = [l for l in gl if not moves[l]]
             escaped = [(l, m) for l in gl for m in moves[l] if m[1] not in gl]
-            R.check(len(holders) == 1 and not escaped, "pending-removed-on-abandon", b.path, "guard never moved/forgotten",
-                    "the PendingRequestGuard is moved out of its variable (%s): its Drop may not run when the call is cancelled" % escaped, b.span,
-                    "guard ends in one variable that is never moved; the compiler drops it on every exit")
-            if len(holders) != 1:
+            frame_owned = False
+            if (len(holders) != 1 or escaped) and fn in extra:
+                # a burst: the guards travel inside a slot value through a vector of slots.  They still belong to this coroutine's frame -
+                # and are dropped with it on every exit - as long as every value that can hold a guard only ever moves into another local, a
+                # collection local (push / extend / into_iter / next) or mem::drop, and never into a call that could keep or forget it
+                frame_owned, why_not = _frame_owned(facts, b, module)
+                if frame_owned:
+                    R.ok("pending-removed-on-abandon", b.path, "guards stay in the coroutine frame", b.span, "every guard-carrying value moves only between locals and collection locals of this frame")
+            if not frame_owned:
+                R.check(len(holders) == 1 and not escaped, "pending-removed-on-abandon", b.path, "guard never moved/forgotten",
+                        "the PendingRequestGuard is moved out of its variable (%s): its Drop may not run when the call is cancelled" % escaped, b.span,
+                        "guard ends in one variable that is never moved; the compiler drops it on every exit")
+            if len(holders) != 1 and not frame_owned:
                 continue
-            g = holders[0]
             init = definitely_init(b)
             n = 0
             for y in yields(b):
                 if y in b.reachable((ri,)):
                     n += 1
+                    if frame_owned:
+                        continue        # (owned by the frame at every point: whichever local holds a guard is dropped with the frame)
                     # (the guard may sit in the variable it was registered into or, later, in the one it was moved to)
                     R.check(any(l_ in init_at_point(b, init, term_pt(b, y)) for l_ in gl), "pending-removed-on-abandon", b.path, "guard live across await #%d" % n,
                             "an await after registration is not covered by the PendingRequestGuard: cancelling there leaves the entry behind",
@@ -374,8 +422,8 @@ def run(facts, R):
             R.floor("pending-removed-on-abandon", n, 2, "await points after registration in " + b.path)
             # wait only after successful write
             wr = [(i, t) for i, t in b.calls() if t["callee"]["name"] == "write_request"]
-            recv_fields = {f_["name"] for p_, a_ in facts.adts.items() if p_.startswith(module + "::") and a_.get("kind") == "struct" and a_.get("variants")
-                           for f_ in a_["variants"][0]["fields"] if "oneshot::Receiver<" in (f_.get("ty") or "")}
+            recv_fields = {f_["name"] for p_, a_ in facts.adts.items() if p_.startswith(module + "::") and a_.get("kind") in ("struct", "enum") and a_.get("variants")
+                           for v_ in a_["variants"] for f_ in v_["fields"] if "oneshot::Receiver<" in (f_.get("ty") or "")}
 
             def _recv_text(txt):
                 # the response receiver: the second half of the oneshot channel, or a Receiver-typed field of a private struct
@@ -383,7 +431,18 @@ def run(facts, R):
                 return "oneshot::channel().1" in txt or any(("." + f_) in txt for f_ in recv_fields)
             polls_recv = [(i, t) for i, t in b.calls() if t["callee"]["name"] == "poll" and _recv_text(render(s.op(t["args"][0])))]
             R.floor("write-failure-returns", len(polls_recv), 1, "receiver polls in " + b.path)
-            for i, t in polls_recv:
+            own_w = [i_ for i_, t_ in b.calls() if t_["callee"]["name"].startswith("write_message") or (t_["callee"]["name"] == "flush" and "writer" in render(s.op(t_["args"][0])))] if not wr else []
+            if own_w:
+                # a burst writer: no receiver is polled on a path that left one of the burst's writes through its Err edge
+                errh = []
+                for x_ in sorted(b.live_blocks()):
+                    for f_ in facts_at(b, s, facts, x_):
+                        if str(f_["val"]) in ("Err", "Break") and any(y_[0] == "call" and len(y_) > 3 and y_[3] in own_w for y_ in walk(f_["expr"])):
+                            errh.append((x_, 0))
+                wpth = must_cross(b, errh, [term_pt(b, i_) for i_, _ in polls_recv], [], after_start=False) if errh else None
+                R.check(bool(errh) and wpth is None, "write-failure-returns", b.path, "wait only after a successful write",
+                        "a response is awaited although a write of the burst failed", b.span, "no receiver poll reachable from a failed write", path=wpth)
+            for i, t in (polls_recv if not own_w else []):
                 fs = facts_at(b, s, facts, i)
                 ok = ok_fact(fs, lambda e: any(y[0] == "call" and "write_request" in y[1] for y in walk(e)))
                 R.check(ok, "write-failure-returns", b.path, "wait only after a successful write",
@@ -399,6 +458,8 @@ def run(facts, R):
                     for x in walk(e):
                         if x[0] == "local":
                             ds = [d for d in b.defs_of(x[1]) if d[0] == "assign"]
+                            # (a definition that builds an Err literal cannot be the value behind an Ok fact)
+                            ds = [d for d in ds if not (d[3].get("agg") == "adt" and d[3].get("variant") == "Err")] or ds
                             if ds and all(_recv_text(render(s.rvalue(d[3]))) for d in ds):
                                 return True
                             # through temporaries assigned on several paths (rewritten combinators): every reaching combination
